@@ -1,0 +1,29 @@
+//go:build verif
+
+// Contracts for govc (comment-only file; see /verif/DESIGN.md section 3).
+package mta
+
+// The sender side of the multiplicative-to-additive conversion (C05): with a present peer ciphertext, well-formed keys
+// on both sides and the verifier's Pedersen parameters nothing panics (the sampled mask is far inside both Paillier
+// plaintext ranges); the outputs are fresh and complete.
+//@ func newMta
+//@   nopanic[C05]
+//@   use bits
+//@   requires senderSecretShare != nil && receiverEncryptedShare != nil && receiverEncryptedShare.c != nil && paillier.skwf(sender) && paillier.pkok(receiver) && paillier.pkvals(receiver) && paillier.pkbig(receiver)
+//@   modifies nothing
+//@   allocates
+//@   ensures result0 != nil && result0.c != nil && result1 != nil && result1.c != nil && result2 != nil && result3 != nil && result4 != nil && fresh(result4)
+//@ func ProveAffG
+//@   nopanic[C05]
+//@   use bits
+//@   requires group != nil && h != nil && h.h != nil && senderSecretShare != nil && senderSecretSharePoint != nil && receiverEncryptedShare != nil && receiverEncryptedShare.c != nil && paillier.skwf(sender) && paillier.pkok(receiver) && paillier.pkvals(receiver) && paillier.pkbig(receiver) && pedersen.pedok(verifier)
+//@   modifies hstate(h), wlog(h.h)
+//@   allocates
+//@   ensures result0 != nil && result1 != nil && result2 != nil && result3 != nil
+//@ func ProveAffP
+//@   nopanic[C05]
+//@   use bits
+//@   requires group != nil && h != nil && h.h != nil && senderSecretShare != nil && senderEncryptedShare != nil && senderEncryptedShare.c != nil && senderEncryptedShareNonce != nil && receiverEncryptedShare != nil && receiverEncryptedShare.c != nil && paillier.skwf(sender) && paillier.pkok(receiver) && paillier.pkvals(receiver) && paillier.pkbig(receiver) && pedersen.pedok(verifier)
+//@   modifies hstate(h), wlog(h.h)
+//@   allocates
+//@   ensures result0 != nil && result1 != nil && result2 != nil && result3 != nil
